@@ -3,6 +3,7 @@ package prog
 import (
 	"fmt"
 	"math"
+	"sort"
 	"strings"
 	"unicode/utf8"
 )
@@ -61,8 +62,10 @@ func Display(v Value) string {
 	case RangeV:
 		return fmt.Sprintf("%d..%d", v.A, v.B)
 	case *ObjV:
-		parts := make([]string, len(v.Keys))
-		for i, k := range v.Keys {
+		keys := append([]string{}, v.Keys...)
+		sort.Strings(keys)
+		parts := make([]string, len(keys))
+		for i, k := range keys {
 			parts[i] = k + ": " + strings.ReplaceAll(Display(v.M[k]), "\n", "\n    ")
 		}
 		return "{\n    " + strings.Join(parts, ",\n    ") + "\n}"
